@@ -6,6 +6,8 @@
  *         X<t>        cancel(task t) unless the client has already seen t's function run (racy by nature)
  *         P           an explicit schedule point
  *         R           release this client's reference (always the client's last op)
+ *                   TASKFN <t> <op>              what task t's function does when it is invoked while the scheduler is
+ *                                                still in use (re-entrancy from the scheduler's own thread): N<u> / F<u>:<ms> / X<u>
  * Every event is written by the thread holding the baton, so the file order is the global order. */
 #include "vh_core.h"
 
@@ -36,6 +38,8 @@ struct client {
 };
 static struct client clients[MAXC];
 static int nclients, ntasks;
+static char taskfn[MAXT + 1][24];
+static int rel_begun;
 
 static void log_time(const char *k, uint64_t ns) {
     long long v[2];
@@ -52,6 +56,8 @@ static const char *role_of(int tid) {
     return "client";
 }
 
+static void do_sched_op(const char *op, int client);
+
 static void task_fn(struct aws_task *task, void *arg, enum aws_task_status status) {
     (void)task;
     int t = (int)(intptr_t)arg;
@@ -62,6 +68,52 @@ static void task_fn(struct aws_task *task, void *arg, enum aws_task_status statu
     vh_str("thr", role_of(vs_self()));
     log_time("vt", vs_now_ns());
     vh_end();
+    /* re-entrancy: a task function may use the scheduler it runs on, as long as the last reference is not being dropped */
+    if (taskfn[t][0] && rel_begun < nclients) {
+        do_sched_op(taskfn[t], -1);
+    }
+}
+
+static void do_sched_op(const char *op, int client) {
+    int t = op[1] ? atoi(op + 1) : 0;
+    if (op[0] == 'N') {
+        if (sched_started[t]) {
+            return; /* every task is handed over at most once */
+        }
+        sched_started[t] = 1;
+        vh_begin("Sched");
+        vh_int("task", t);
+        vh_int("client", client);
+        vh_str("kind", "now");
+        log_time("at", t0);
+        vh_end();
+        aws_thread_scheduler_schedule_now(sched, &tasks[t]);
+    } else if (op[0] == 'F') {
+        if (sched_started[t]) {
+            return;
+        }
+        const char *colon = strchr(op, ':');
+        uint64_t ms = colon ? strtoull(colon + 1, NULL, 10) : 0;
+        uint64_t now = 0;
+        aws_high_res_clock_get_ticks(&now);
+        uint64_t at = now + ms * 1000000ull;
+        sched_started[t] = 1;
+        vh_begin("Sched");
+        vh_int("task", t);
+        vh_int("client", client);
+        vh_str("kind", "future");
+        log_time("at", at);
+        vh_end();
+        aws_thread_scheduler_schedule_future(sched, &tasks[t], at);
+    } else if (op[0] == 'X') {
+        if (sched_started[t] && !invoked_seen[t]) {
+            vh_begin("Cancel");
+            vh_int("task", t);
+            vh_int("client", client);
+            vh_end();
+            aws_thread_scheduler_cancel_task(sched, &tasks[t]);
+        }
+    }
 }
 
 static void run_client(void *arg) {
@@ -69,40 +121,12 @@ static void run_client(void *arg) {
     for (int i = 0; i < c->nops; ++i) {
         const char *op = c->ops[i];
         int t = op[1] ? atoi(op + 1) : 0;
-        if (op[0] == 'N') {
-            sched_started[t] = 1;
-            vh_begin("Sched");
-            vh_int("task", t);
-            vh_int("client", c->k);
-            vh_str("kind", "now");
-            log_time("at", t0);
-            vh_end();
-            aws_thread_scheduler_schedule_now(sched, &tasks[t]);
-        } else if (op[0] == 'F') {
-            const char *colon = strchr(op, ':');
-            uint64_t ms = colon ? strtoull(colon + 1, NULL, 10) : 0;
-            uint64_t now = 0;
-            aws_high_res_clock_get_ticks(&now);
-            uint64_t at = now + ms * 1000000ull;
-            sched_started[t] = 1;
-            vh_begin("Sched");
-            vh_int("task", t);
-            vh_int("client", c->k);
-            vh_str("kind", "future");
-            log_time("at", at);
-            vh_end();
-            aws_thread_scheduler_schedule_future(sched, &tasks[t], at);
-        } else if (op[0] == 'X') {
-            if (sched_started[t] && !invoked_seen[t]) {
-                vh_begin("Cancel");
-                vh_int("task", t);
-                vh_int("client", c->k);
-                vh_end();
-                aws_thread_scheduler_cancel_task(sched, &tasks[t]);
-            }
+        if (op[0] == 'N' || op[0] == 'F' || op[0] == 'X') {
+            do_sched_op(op, c->k);
         } else if (op[0] == 'P') {
             vs_point();
         } else if (op[0] == 'R') {
+            rel_begun++;
             vh_begin("RelBegin");
             vh_int("client", c->k);
             vh_end();
@@ -117,6 +141,8 @@ static void run_client(void *arg) {
 static void scenario(char **lines, int nlines) {
     nclients = 0;
     ntasks = 1;
+    rel_begun = 0;
+    memset(taskfn, 0, sizeof(taskfn));
     memset(clients, 0, sizeof(clients));
     for (int i = 0; i < nlines; ++i) {
         char *dup = strdup(lines[i]);
@@ -124,6 +150,9 @@ static void scenario(char **lines, int nlines) {
         char *tok = strtok_r(dup, " ", &save);
         if (tok && strcmp(tok, "NT") == 0) {
             ntasks = atoi(strtok_r(NULL, " ", &save));
+        } else if (tok && strcmp(tok, "TASKFN") == 0) {
+            int t = atoi(strtok_r(NULL, " ", &save));
+            strncpy(taskfn[t], strtok_r(NULL, " ", &save), 23);
         } else if (tok && strcmp(tok, "CLIENT") == 0) {
             int k = atoi(strtok_r(NULL, " ", &save));
             struct client *c = &clients[nclients++];
